@@ -21,7 +21,8 @@ CONSTANTS EscMode,      \* "none" | "markupsafe"
           LinkStyle,    \* "code" | "fixed" | "samepage" | "sameprefix"
           MaxTok,       \* payloads are sequences of 0..MaxTok special tokens
           Part,         \* "text" | "links" | "both"
-          Chains        \* BOOLEAN: shapes with a third type (nested rendering inside nested rendering)
+          Chains,       \* BOOLEAN: shapes with a third type (nested rendering inside nested rendering)
+          ListStyle     \* "versioned": every type (name AND version) has its entry | "byname": one entry per unversioned name
 
 P == INSTANCE HtmlDoc WITH MaxLen <- 0, st <- 0, toks <- 0, seen <- 0
 
@@ -184,7 +185,7 @@ LexData(s, i0, t0, out) ==       \* t0 = start of the pending character data
 Lex(s) == LexData(s, 1, 1, <<>>)
 
 (* ---- judge: the P-layer acceptor over the lexed page ---- *)
-RunEv(exp) == [k |-> "run", exp |-> exp]
+RunEv(exp) == [k |-> "run", exp |-> exp, nt |-> 0]
 DocEv == [k |-> "doc", pg |-> 1, path |-> <<P!N_index_html>>]
 EndEv == [k |-> "enddoc", pg |-> 1]
 Judge(events, text) ==
@@ -202,10 +203,9 @@ R1 == <<122, 113, 114, 97>>   R2 == <<122, 113, 114, 98>>   NS_S == <<122, 113, 
 (* zqra.zqs.zquZqt2 next to zqra.zqs.zqu): "listed on this page" must be decided on name COMPONENTS, never on string prefixes     *)
 R1X == <<122, 113, 114, 97, 120>>     NS_SX == <<122, 113, 115, 120>>
 TN1 == <<122, 113, 115, 90, 113, 116, 49>>   TN2 == <<122, 113, 117, 90, 113, 116, 50>>   TN3 == <<90, 113, 116, 51>>
-V10 == <<95, 49, 95, 48>>     DOTHTML == <<46, 104, 116, 109, 108>>
+USC == 95                     DOTHTML == <<46, 104, 116, 109, 108>>
 UPDIR == <<46, 46, 47>>       SLHASH == <<47, 35>>
 REQ == <<82, 101, 113, 117, 101, 115, 116>>     RESP == <<82, 101, 115, 112, 111, 110, 115, 101>>
-USC == 95
 
 Namespaces == { <<R1>>, <<R1, NS_S>>, <<R1, NS_S, NS_U>>, <<R2>>, <<R1X>>, <<R1, NS_SX>> }
 Hows   == {"plain", "farr", "varr"}
@@ -225,17 +225,29 @@ RECURSIVE Rep(_, _)
 Rep(s, n) == IF n = 0 THEN <<>> ELSE s \o Rep(s, n - 1)
 IsPrefix(a, b) == Len(a) <= Len(b) /\ SubSeq(b, 1, Len(a)) = a
 
-TypesOf(sh) == {[ns |-> sh.dst, name |-> TN1, i |-> 0], [ns |-> sh.src, name |-> TN2, i |-> 1]}
-               \cup (IF sh.chain THEN {[ns |-> <<R1, NS_S>>, name |-> TN3, i |-> 2]} ELSE {})
-TypeNamed(sh, n) == CHOOSE t \in TypesOf(sh) : t.name = n
-TagId(t, sub) == Join(t.ns \o <<t.name>> \o (IF sub = <<>> THEN <<>> ELSE <<sub>>), USC, 1) \o V10
+(* The referenced type exists in SEVERAL VERSIONS under one short name in one namespace (1.0, 1.1, 2.0); the referrer uses all  *)
+(* of them.  Type indices: 0, 1, 2 = the versions of the target, 3 = the referrer, 4 = the third type of a chain.              *)
+Versions == << <<1, 0>>, <<1, 1>>, <<2, 0>> >>
+TypesOf(sh) == {[ns |-> sh.dst, name |-> TN1, ver |-> Versions[v], i |-> v - 1] : v \in 1..Len(Versions)}
+               \cup {[ns |-> sh.src, name |-> TN2, ver |-> <<1, 0>>, i |-> 3]}
+               \cup (IF sh.chain THEN {[ns |-> <<R1, NS_S>>, name |-> TN3, ver |-> <<1, 0>>, i |-> 4]} ELSE {})
+Targets(sh) == {t \in TypesOf(sh) : t.name = TN1}
+(* the referrer uses two of the three versions; 1.1 is used by nobody (only its own entry can name it)                        *)
+Used(sh) == {t \in Targets(sh) : t.ver \in {<<1, 0>>, <<2, 0>>}}
+Referrer(sh) == CHOOSE t \in TypesOf(sh) : t.name = TN2
+VerSfx(t) == <<USC, 48 + t.ver[1], USC, 48 + t.ver[2]>>
+TagId(t, sub) == Join(t.ns \o <<t.name>> \o (IF sub = <<>> THEN <<>> ELSE <<sub>>), USC, 1) \o VerSfx(t)
+(* the types that get an entry (anchor + side bar link) on the namespace pages                                              *)
+VerLE(a, b) == a[1] < b[1] \/ (a[1] = b[1] /\ a[2] <= b[2])
+Listed(sh) == IF ListStyle = "versioned" THEN TypesOf(sh)
+              ELSE {t \in TypesOf(sh) : \A u \in TypesOf(sh) : (u.ns = t.ns /\ u.name = t.name) => VerLE(u.ver, t.ver)}
 
 (* build_namespace_tree: every prefix of a type's namespace is a namespace with its own index.html            *)
 NsSet(sh) == UNION {{SubSeq(t.ns, 1, k) : k \in 1..Len(t.ns)} : t \in TypesOf(sh)}
 PagesOf(sh) == {Append(n, P!N_index_html) : n \in NsSet(sh)}
-               \cup {Append(t.ns, t.name \o V10 \o DOTHTML) : t \in TypesOf(sh)}
+               \cup {Append(t.ns, t.name \o VerSfx(t) \o DOTHTML) : t \in TypesOf(sh)}
 (* ids that can be link targets: on the page of namespace n, the tag id of every type and namespace below n     *)
-NT(sh) == {p \in NsSet(sh) \X TypesOf(sh) : IsPrefix(p[1], p[2].ns)}      \* <<namespace page, type listed on it>>
+NT(sh) == {p \in NsSet(sh) \X Listed(sh) : IsPrefix(p[1], p[2].ns)}       \* <<namespace page, type listed on it>>
 NM(sh) == {p \in NsSet(sh) \X NsSet(sh) : IsPrefix(p[1], p[2])}            \* <<namespace page, namespace listed on it>>
 IdsOf(sh) == {<<Append(p[1], P!N_index_html), TagId(p[2], <<>>)>> : p \in NT(sh)}
              \cup {<<Append(p[1], P!N_index_html), Join(p[2], USC, 1)>> : p \in NM(sh)}
@@ -253,9 +265,9 @@ Href(style, n, t, sub) ==
 
 (* references rendered (recursively) inside the entry of type t: <<referenced type, sub>>                       *)
 RefsIn(sh, t) ==
-    IF t.name = TN2 THEN {<<TypeNamed(sh, TN1), <<>> >>}
+    IF t.name = TN2 THEN {<<u, <<>> >> : u \in Used(sh)}
                          \cup (IF IsService(sh.skind) THEN {<<t, REQ>>, <<t, RESP>>} ELSE {})
-    ELSE IF t.name = TN3 THEN {<<TypeNamed(sh, TN2), <<>> >>, <<TypeNamed(sh, TN1), <<>> >>}
+    ELSE IF t.name = TN3 THEN {<<Referrer(sh), <<>> >>} \cup {<<u, <<>> >> : u \in Used(sh)}
     ELSE {}
 
 LinksOf(style, sh) ==
@@ -294,6 +306,10 @@ DoLinks ==  /\ phase = "links"
             /\ phase' = "resolve" /\ UNCHANGED <<stim, result>>
 DoResolve == /\ phase = "resolve"
              /\ result' = {[from |-> lk.from, href |-> lk.href, why |-> P!LinkVerdict(lk, mid.pages, mid.ids)] : lk \in mid.links}
+                           \cup {[from |-> <<>>, href |-> <<>>, why |-> "type-without-resolving-link"] :
+                                    t \in P!Unlisted(Cardinality(TypesOf(stim)), mid.links, mid.pages, mid.ids)}
+                           \cup {[from |-> r.to, href |-> r.frag, why |-> "anchor-shared-by-types"] :
+                                    r \in P!SharedAnchors(mid.links, mid.pages, mid.ids)}
              /\ phase' = "done" /\ UNCHANGED <<stim, mid>>
 
 Next == DoRender \/ DoLex \/ DoJudge \/ DoTree \/ DoLinks \/ DoResolve
@@ -319,7 +335,7 @@ Emit == phase = "done" =>
                          pred_none |-> Predict("none", "pre", Flat(stim.pl, 1)).clauses,
                          pred_esc  |-> Predict("markupsafe", "pre", Flat(stim.pl, 1)).clauses])))
     ELSE PrintT(ToJson([kind |-> "links", src |-> stim.src, dst |-> stim.dst, how |-> stim.how, skind |-> stim.skind,
-                        dkind |-> stim.dkind, chain |-> stim.chain, names |-> <<TN1, TN2, TN3>>,
+                        dkind |-> stim.dkind, chain |-> stim.chain, names |-> <<TN1, TN2, TN3>>, versions |-> Versions, used |-> {t.i : t \in Used(stim)},
                         pages |-> PagesOf(stim),
                         links_code |-> {[from |-> lk.from, href |-> lk.href] : lk \in LinksOf("code", stim)},
                         links_fixed |-> {[from |-> lk.from, href |-> lk.href] : lk \in LinksOf("fixed", stim)},
